@@ -82,6 +82,8 @@ structure LoopConsts where
   resetGe : Bool
   /-- while-condition `… > tolerance` (`true`) or `>=`. -/
   condGt : Bool
+  /-- the while-condition starts with `values.any() and` (repair 5419aa3; `guarded`). -/
+  zeroGuard : Bool
 deriving Repr, DecidableEq
 
 /-- `body` with the constants read from the source. -/
@@ -102,24 +104,29 @@ def resetTolP (c : LoopConsts) (adapt : Bool) (max : ℕ) (tolOld : ℚ) (s : Ct
 
 /-- The constants the hand-written controller (`body`, `resetTol`, `Ratio.gt`) uses. -/
 def codedConsts : LoopConsts :=
-  { maxStrict := true, adaptStrict := true, adaptFactor := 2, tolFactor := 10, resetGe := true, condGt := true }
+  { maxStrict := true, adaptStrict := true, adaptFactor := 2, tolFactor := 10, resetGe := true, condGt := true, zeroGuard := true }
 
 /-- Start state of a component: `vectors_old = zeros_like(vectors)`, `n_iter = 0`. -/
 def start (zero : V → V) (tol : ℚ) (cur : V) : Ctl V :=
   { nIter := 0, tol := tol, old := zero cur, cur := cur }
 
-/-- Loop over the components (l.646): per component the while loop, the tolerance reset,
+/-- The repaired while-condition (commit 5419aa3): `values.any() and any(…)` — `nz` says
+whether the residual handed to the component has a non-zero entry. -/
+def guarded (nz : Bool) (notConv : V → V → ℚ → Bool) : V → V → ℚ → Bool :=
+  fun o c t => nz && notConv o c t
+
+/-- Loop over the components (l.646), `nz k` = "the residual of component `k` is not exactly zero": per component the while loop, the tolerance reset,
 the unit scaling (`scale`) — the oracles may depend on the component (the residual
 changes).  Result: number of update calls per component, tolerance and vectors at the
 end.  `none` iff some while loop ran out of fuel. -/
-def fitCtl (notConv : ℕ → V → V → ℚ → Bool) (update : ℕ → V → V) (zero scale : V → V)
+def fitCtl (nz : ℕ → Bool) (notConv : ℕ → V → V → ℚ → Bool) (update : ℕ → V → V) (zero scale : V → V)
     (max : ℕ) (adapt : Bool) : ℕ → ℕ → ℚ → V → Option (List ℕ × ℚ × V)
   | 0, _, tol, cur => some ([], tol, cur)
   | K + 1, k, tol, cur =>
-    match run (notConv k) (update k) max adapt (fuelFor max) (start zero tol cur) with
+    match run (guarded (nz k) (notConv k)) (update k) max adapt (fuelFor max) (start zero tol cur) with
     | none => none
     | some s =>
-      match fitCtl notConv update zero scale max adapt K (k + 1)
+      match fitCtl nz notConv update zero scale max adapt K (k + 1)
               (resetTol adapt max tol s) (scale s.cur) with
       | none => none
       | some (ns, t, v) => some (s.nIter :: ns, t, v)
@@ -152,9 +159,9 @@ def Ratio.gt (r : Ratio) (tol : ℚ) : Bool :=
 def notConvRec (ratio : ℕ → Ratio) (old cur : ℕ) (tol : ℚ) : Bool :=
   if old = cur then decide (tol < 0) else (ratio (cur - 1)).gt tol
 
-def fitCtlRec (ratios : ℕ → ℕ → Ratio) (max : ℕ) (adapt : Bool) (K : ℕ) (tol : ℚ) :
+def fitCtlRec (nz : ℕ → Bool) (ratios : ℕ → ℕ → Ratio) (max : ℕ) (adapt : Bool) (K : ℕ) (tol : ℚ) :
     Option (List ℕ × ℚ × ℕ) :=
-  fitCtl (fun k => notConvRec (ratios k)) (fun _ v => v + 1) (fun _ => 0) (fun _ => 1)
+  fitCtl nz (fun k => notConvRec (ratios k)) (fun _ v => v + 1) (fun _ => 0) (fun _ => 1)
     max adapt K 0 tol 1
 
 /-! ## 2. Algebra -/
